@@ -321,6 +321,13 @@ def calculate_lm(steps, rate, accel, accum="clear"):
             pos_final = net_steps
             pos_f_adj = pos_final + 1
 
+    # On the return leg of a move that reverses, the step back to the adjusted position is
+    #   made when the accumulator has moved *past* that step boundary, not when it lands
+    #   exactly on it: aim one count beyond the boundary, in the direction of return travel.
+    landing = 0
+    if t_rev > 0:
+        landing = 1 if accel > 0 else -1
+
     # Case of no acceleration; constant rate: T = (2^31 * position - accumulator)/rate
     if accel == 0:
         time_final_star = (2147483648 * pos_final - mpmath.mpf(accum_adj))/mpmath.mpf(rate)
@@ -332,7 +339,7 @@ def calculate_lm(steps, rate, accel, accum="clear"):
 
         time_final_star = 0 # Fallback, if no solutions are found.
         two_a = mpmath.mpf(accel) # 2 * a = 2 * accel/2
-        c_factor = accum_adj - mpmath.mpf(pos_f_adj) * 2147483648
+        c_factor = accum_adj - (mpmath.mpf(pos_f_adj) * 2147483648 + landing)
         discriminant = rate_effective * rate_effective - 2 * two_a * c_factor # b^2 - 4 a c
 
         neg_root = -1
